@@ -37,6 +37,12 @@ theorem int32_roundtrip (a : BitVec 32) :
   rw [ofBE_beBytes_of_lt 4 _ (int32ToU a).isLt]
   simp [Bits.uToInt32_int32ToU]
 
+theorem int16_roundtrip (a : BitVec 16) : bytesToInt16 (int16ToBytes a) = a := by
+  unfold bytesToInt16 int16ToBytes
+  rw [List.take_of_length_le (by rw [beBytes_length]; exact Nat.le_refl 2),
+    ofBE_beBytes_of_lt 2 _ a.isLt]
+  simp
+
 /-- distinct values have distinct encodings (consequence of the round trip). -/
 theorem int64ToBytes_injective (a b : BitVec 64) (h : int64ToBytes a = int64ToBytes b) : a = b := by
   rw [← int64_roundtrip a, ← int64_roundtrip b, h]
